@@ -261,7 +261,7 @@ impl Scenario for Resolve {
                 sh = mix(sh, fnv(&format!("{:?}", o.got)));
                 out.count("queries", 1);
                 let ok = match &o.got {
-                    None => exp.accept.is_empty(),
+                    None => exp.accept.is_empty() || exp.none_ok,
                     Some(g) => exp.accept.iter().any(|i| model.defs[*i].file == g.0 && model.defs[*i].line == g.1 && model.defs[*i].name == g.2),
                 };
                 if !ok {
